@@ -289,10 +289,21 @@ func cfaultCase(cs cfCase) *CaseSpec {
 			}
 		})
 		done := false
-		select {
-		case <-c.Done():
-			done = true
-		case <-time.After(wd(time.Second)):
+		if cs.k%2 == 0 {
+			select {
+			case <-c.Done():
+				done = true
+			case <-time.After(wd(time.Second)):
+			}
+		} else {
+			// an application that notices the failure through AwaitConverged and never reads Done:
+			// the report stays where it is (looked at, not taken) — Reset has to clear it
+			for dl := time.Now().Add(wd(time.Second)); time.Now().Before(dl); time.Sleep(time.Millisecond) {
+				if len(c.Done()) > 0 {
+					done = true
+					break
+				}
+			}
 		}
 		closeRes, fresh, exch := "-", "-", "-"
 		leak := 0
@@ -315,6 +326,16 @@ func cfaultCase(cs cfCase) *CaseSpec {
 				closeRes = "hang"
 			}
 			leak = census()
+			if closeRes == "ok" {
+				// calls that queue further requests still return — after Close as well
+				if !within(3*time.Second, func() {
+					for i := 0; i < 8; i++ {
+						c.Q(cfOp(uint64(301 + i)))
+					}
+				}) {
+					closeRes = "q-after-close-hang"
+				}
+			}
 		default:
 			if within(3*time.Second, func() { c.Reset() }) {
 				closeRes = "ok"
@@ -328,7 +349,7 @@ func cfaultCase(cs cfCase) *CaseSpec {
 				r, _ := c.Results()
 				s, _ := c.Status()
 				fresh = "1"
-				if len(p) != 0 || len(r) != 0 || (s != nil && (len(s.SendErrs) != 0 || len(s.ReadErrs) != 0)) {
+				if len(p) != 0 || len(r) != 0 || (s != nil && (len(s.SendErrs) != 0 || len(s.ReadErrs) != 0)) || len(c.Done()) != 0 {
 					fresh = "0"
 				}
 				// a further exchange on a new stream
